@@ -5,7 +5,7 @@ from fractions import Fraction
 import z3
 
 from .values import (
-    Ref, ListE, DictE, ObjE, SymListE, FuncVal, BoundMethod, ClassVal, BuiltinClass, ExcVal, Exc, Opaque,
+    Ref, ListE, DictE, SetE, FrozenSetE, DictViewE, ObjE, SymListE, FuncVal, BoundMethod, ClassVal, BuiltinClass, ExcVal, Exc, Opaque,
     Unsupported, EngineError, is_z3, z3val, as_arith, is_intlike, is_reallike, is_boollike, Unknown,
 )
 from .heap import HeapSeq, HObj, obj_sort
@@ -377,6 +377,12 @@ def exec_for(I, st, node):
                 lazy_note(st1, live, st1.get(live).items)
                 yield from unroll_live(I, st1, node, live, 0)
                 continue
+            if hashed_source(st1, it) is not None:
+                # `for k in d` / `in d.items()` / `in a_set`: CPython's iterators read the live container and raise
+                # RuntimeError when its size has changed since the loop began
+                lazy_note(st1, it, _hashed_keys(st1, it))
+                yield from unroll_hashed(I, st1, node, it, 0, _hashed_keys(st1, it))
+                continue
             items, watch = iterate_watched(I, st1, it)
             if len(items) > 4000:
                 raise Unsupported("loop over %d items" % len(items))
@@ -416,27 +422,38 @@ def live_list_ref(I, st, it):
     return None
 
 
+_MARK = "__lazy_mark__"
+
+
 def lazy_begin(st):
-    old = st.ghost.get(_REC)
+    """start of an eager evaluation of a lazy iterator; only containers that exist ALREADY (id <= mark) are recorded:
+    what the evaluation allocates itself is private to it"""
+    old = (st.ghost.get(_REC), st.ghost.get(_MARK))
     st.ghost[_REC] = ()
+    st.ghost[_MARK] = st.nid[0]
     return old
 
 
 def lazy_end(st, old, acc):
+    old_rec, old_mark = old
     rec = st.ghost.get(_REC, ())
-    if old is None:
+    if old_rec is None:
         st.ghost.pop(_REC, None)
+        st.ghost.pop(_MARK, None)
     else:
-        st.ghost[_REC] = old + rec
+        st.ghost[_REC] = old_rec + tuple(r for r in rec if r[0] <= old_mark)
+        st.ghost[_MARK] = old_mark
     if rec and isinstance(acc, Ref):
         st.ghost[("lazy_src", acc.id)] = rec
 
 
 def lazy_note(st, ref, items):
-    """called for every list that is iterated: remember it (and what an eager list iterated here itself depends on)"""
+    """called for every list / dict / set that is iterated: remember it (and what an eager list iterated here itself
+    depends on)"""
     deps = st.ghost.get(("lazy_src", ref.id), ())
     if _REC in st.ghost:
-        st.ghost[_REC] = st.ghost[_REC] + ((ref.id, tuple(items)),) + deps
+        mark = st.ghost.get(_MARK, 0)
+        st.ghost[_REC] = st.ghost[_REC] + tuple(r for r in ((ref.id, tuple(items)),) + deps if r[0] <= mark)
     if deps:
         st.ghost["__last_lazy__"] = st.ghost.get("__last_lazy__", ()) + deps
 
@@ -456,14 +473,90 @@ def _same_items(cur, snap):
             continue
         if type(a) is type(b) and isinstance(a, (int, str, bool, float, Fraction, Ref)) and a == b:
             continue
+        if type(a) is tuple and type(b) is tuple and _same_items(a, b):
+            continue  # e.g. the (key, value) pairs of a d.items() view, rebuilt at every access
         return False
     return True
 
 
+def hashed_source(st, it):
+    """"dict" / "set" / "view" when `it` is a dictionary, a set or a dictionary view (iterated through a live, size-checking
+    iterator in CPython), else None"""
+    if not isinstance(it, Ref) or ("lazy_src", it.id) in st.ghost:
+        return None
+    e = st.get(it)
+    if e.__class__ is DictViewE:
+        return "view"
+    if e.kind == "dict" and type(e) is DictE and e.owner is None:
+        return "dict"
+    if e.kind == "set" and type(e) in (SetE, FrozenSetE):
+        return "set"
+    return None
+
+
+def _hashed_keys(st, it):
+    """the current key sequence of the dictionary / set behind `it`"""
+    e = st.get(it)
+    if e.__class__ is DictViewE:
+        return list(st.get(e.dref).items)
+    return list(e.items)
+
+
+def unroll_hashed(I, st, node, it, k, keys0):
+    """`for x in <dict | dict view | set>`: at every step (also the one that would end the loop) CPython compares the
+    container's size with the size at loop entry -> RuntimeError; the same size with other keys is `RuntimeError: keys
+    changed` or an order that depends on the hash table (Unsupported).  Values are read live (d.items(), d.values())."""
+    from .ops import exc as _exc
+
+    while True:
+        keys = _hashed_keys(st, it)
+        if len(keys) != len(keys0):
+            what = "Set" if st.get(it).kind == "set" else "dictionary"
+            yield st, ("raise", _exc("RuntimeError", "%s changed size during iteration" % what).exc)
+            return
+        if not _same_items(keys, keys0):
+            raise Unsupported("the keys of a dictionary / set are changed while it is being iterated")
+        if k > 4000:
+            raise Unsupported("loop over more than 4000 items")
+        if k >= len(keys):
+            if node.orelse:
+                yield from I.ex_block(node.orelse, st)
+            else:
+                yield st, None
+            return
+        e = st.get(it)
+        item = e.items[k] if e.kind != "dict" else keys[k]
+        outs = list(I.assign(node.target, item, st))
+        if len(outs) == 1 and not isinstance(outs[0][1], Exc):
+            body = list(I.ex_block(node.body, outs[0][0]))
+            if len(body) == 1 and (body[0][1] is None or body[0][1][0] == "continue"):
+                st = body[0][0]
+                k += 1
+                continue
+            yield from _hashed_rest(I, body, node, it, k, keys0)
+            return
+        for st1, r in outs:
+            if isinstance(r, Exc):
+                yield st1, ("raise", r.exc)
+                continue
+            yield from _hashed_rest(I, list(I.ex_block(node.body, st1)), node, it, k, keys0)
+        return
+
+
+def _hashed_rest(I, body, node, it, k, keys0):
+    for st2, ctrl in body:
+        if ctrl is None or ctrl[0] == "continue":
+            yield from unroll_hashed(I, st2, node, it, k + 1, keys0)
+        elif ctrl[0] == "break":
+            yield st2, None
+        else:
+            yield st2, ctrl
+
+
 def lazy_check(st, rec):
     for rid, snap in rec or ():
-        e = st.store.get(rid)
-        if e is None or not _same_items(e.items, snap):
+        e = st.get(Ref(rid)) if rid in st.store else None  # st.get: dictionary views are recomputed
+        if e is None or not _same_items(list(e.items), snap):
             raise Unsupported("a list is changed while an eagerly evaluated lazy iterator (generator / iter()) over it is still being consumed")
 
 
@@ -778,7 +871,7 @@ def call_generator(I, st, f, args, kwargs):
     st.frames.append(fr)
     old = lazy_begin(st)
     for st1, ctrl in I.ex_block(f.node.body, st):
-        st1.frames.pop()
+        I.pop_frame(st1)
         lazy_end(st1, old, acc)
         if ctrl is None or ctrl[0] == "return":
             yield st1, acc
